@@ -227,7 +227,31 @@ func famC15(rn *Runner) {
 		case k < 19:
 			// well-typed queries from every node (incl. attribute and namespace nodes)
 			var e Expr
-			switch r.Intn(6) {
+			switch r.Intn(7) {
+			case 6:
+				// sizes past any fixed buffer: many arguments, many predicates, many steps, long names and literals
+				switch r.Intn(4) {
+				case 0:
+					var args []Expr
+					for k, n := 0, 9+r.Intn(40); k < n; k++ {
+						args = append(args, pick(r, []Expr{lit("x"), num("1"), &EVar{RawQ{Local: "s"}}, call("name")}))
+					}
+					e = call(pick(r, []string{"concat", "concat", "f", "count", "string"}), args...)
+				case 1:
+					st := &Stp{Axis: "descendant-or-self", Test: NodeTest{Kind: "node"}}
+					for k, n := 0, 9+r.Intn(20); k < n; k++ {
+						st.Preds = append(st.Preds, pick(r, []Expr{call("true"), num("1"), bin("=", call("position"), call("position"))}))
+					}
+					e = &EPath{Abs: true, Steps: []*Stp{st}}
+				case 2:
+					var ss []*Stp
+					for k, n := 0, 17+r.Intn(60); k < n; k++ {
+						ss = append(ss, &Stp{Axis: pick(r, []string{"descendant-or-self", "ancestor-or-self", "self"}), Test: NodeTest{Kind: "node"}})
+					}
+					e = &EPath{Abs: r.Bool(), Steps: ss}
+				default:
+					e = call("string-length", lit(strings.Repeat(pick(r, []string{"a", "\u00e9", "ab "}), 70+r.Intn(4000))))
+				}
 			case 0:
 				ax := pick(r, allAxes)
 				e = &EPath{Steps: []*Stp{{Axis: ax, Test: g.NodeTest(ax)}, g.Step(1, 3)}}
